@@ -12,6 +12,9 @@
    - cone : steps downstream of a set of edited files. *)
 From Coq Require Import List NArith Bool.
 From SV Require Import lib.Bytes lib.Closure model.Graph model.GraphDump.
+(* the deferred-column layer of /repo 84081f2 (owner C09; Required, not Imported: GraphExt.v has its own
+   revert_optional / check_trace_x) *)
+From SV Require model.GraphExt.
 Import ListNotations.
 Open Scope N_scope.
 
@@ -459,6 +462,61 @@ Definition run_xops (ops : list xop) (s : st) : st :=
   fold_left (fun s x => match step_xop x s with Ok s' => s' | _ => s end) ops s.
 Definition check_trace_x (cap : N) (tr : list (xop * outcome * dump)) : bool :=
   match first_bad_x 0 (init_st cap) tr with None => true | Some _ => false end.
+
+(* ------------------------------------------------------------------------------------------ *)
+(* The transactions SINCE /repo 84081f2 (fix of D39)                                              *)
+(* ------------------------------------------------------------------------------------------ *)
+(* Graph.step_op (body untouched by its owner) + the layer of model/GraphExt.v on the plain alphabet:
+   - validate_dynamic_job with unchanged inputs: PENDING, deferred iff a dynamic input of the step is
+     still unusable (Step.has_unusable_dynamic_input, decided in the recording transaction), no longer
+     unconditionally;
+   - trigger step_node_undefer_reattached: at the end of every other transaction the steps that consume
+     a node that was detached before it and is attached after it lose the deferred flag.
+   Only the deferred column of step rows differs from Graph.step_op.  This is the semantics the E2
+   correspondence runs (check_trace_x2, run_xops2, cone_ops2_first_bad2); which theorems are proved over
+   it and which over Graph.step_op: design.d/C04.md. *)
+Definition step_op2 (o : op) (s : st) : res st :=
+  match o with
+  | OpValidatePending l => set_sstate l SPending (GraphExt.has_unusable_dynamic_input l s) s
+  | _ => match step_op o s with
+         | Ok s' => Ok (GraphExt.undefer_post s s')
+         | Usage t => Usage t
+         | Internal t => Internal t
+         end
+  end.
+Definition apply_op2 (s : st) (o : op) : st := match step_op2 o s with Ok s' => s' | _ => s end.
+Definition run_ops2 (ops : list op) (s : st) : st := fold_left apply_op2 ops s.
+(* revert_optional_steps: raw updates of state columns, no node is re-attached: the trigger does not fire *)
+Definition step_xop2 (x : xop) (s : st) : res st :=
+  match x with XOp o => step_op2 o s | XRevert => revert_optional s end.
+Fixpoint first_bad_x2 (i : nat) (s : st) (tr : list (xop * outcome * dump)) : option nat :=
+  match tr with
+  | [] => None
+  | (o, oc, d) :: tr' =>
+    let r := step_xop2 o s in
+    let s' := match r with Ok x => x | _ => s end in
+    if outcome_eqb (outcome_of r) oc && dump_eqb (dump_of s') d then first_bad_x2 (S i) s' tr'
+    else Some i
+  end.
+Definition run_xops2 (ops : list xop) (s : st) : st :=
+  fold_left (fun s x => match step_xop2 x s with Ok s' => s' | _ => s end) ops s.
+Definition check_trace_x2 (cap : N) (tr : list (xop * outcome * dump)) : bool :=
+  match first_bad_x2 0 (init_st cap) tr with None => true | Some _ => false end.
+(* the clauses of cone_op2 along a rebuild that is stepped with the transactions since 84081f2 *)
+Fixpoint cone_ops2_first_bad2 (q : st) (E G : list str) (i : nat) (edges : list (key * key)) (s : st)
+         (ops : list op) : option (nat * N) :=
+  match ops with
+  | [] => None
+  | o :: ops' =>
+    let edges' := add_edges (step_edges s o) edges in
+    match cone_op2_why q E (tcone_keys_e E G edges') s o with
+    | 0 => cone_ops2_first_bad2 q E G (S i) edges' (apply_op2 s o) ops'
+    | c => Some (i, c)
+    end
+  end.
+Definition successful_history2 (cap : N) (hist : list xop) : Prop :=
+  exists pre, hist = pre ++ [XRevert; XOp OpDeleteDetached] /\
+              end_of_phase_b (run_xops2 pre (init_st cap)) = true.
 
 (* A history (transactions of Graph.v plus revert_optional_steps) that ends in a successful build:
    the build phase ended successfully (end_of_phase_b), then finalize ran: revert_optional_steps,
